@@ -254,7 +254,12 @@ class CFG:
             for lab, pol in (("T", True), ("F", False)):
                 r = self.reachable(avoid_edges={(h, lab)})
                 if not (r & tgt):
-                    out.append((self.stmt[h].test, pol))
+                    # canonical polarity: `not c` being true is `c` being false
+                    test = self.stmt[h].test
+                    while isinstance(test, ast.UnaryOp) and isinstance(test.op, ast.Not):
+                        test = test.operand
+                        pol = not pol
+                    out.append((test, pol))
         return out
 
     def witness_path(self, target, avoid=()):
